@@ -8,25 +8,8 @@ open MosnVerif.Gen.FilterPhase MosnVerif.Model.FilterChain MosnVerif.Model.Filte
 
 theorem afterPE_calls (c : Cfg) (g : St) :
     (afterPE c g).trace = g.trace ∧ (afterPE c g).rcalls = g.rcalls ∧ (afterPE c g).scalls = g.scalls := by
-  by_cases hc : g.cleaned = true
-  · rw [afterPE_cleaned c g hc]; simp
-  · have hc : g.cleaned = false := by simpa using hc
-    by_cases hr : g.upstreamReset = true
-    · rw [afterPE_reset c g hc hr]
-      split
-      · simp
-      · split <;> simp [consumeDirect, onUpstreamReset, liftF, sendHijack]
-    · have hr : g.upstreamReset = false := by simpa using hr
-      by_cases hd : g.direct = true
-      · rw [afterPE_direct c g hc hr hd]
-        split
-        · simp [consumeDirect]
-        · split <;> simp [consumeDirect]
-      · have hd : g.direct = false := by simpa using hd
-        rw [afterPE_plain c g hc hr hd]
-        split
-        · simp
-        · split <;> simp
+  obtain ⟨h1, _, h3, _, _, h6, _⟩ := afterPE_frame c g
+  exact ⟨h1, h3, h6⟩
 
 /-- no filter pass in this step -/
 def Plain (s r : St) : Prop :=
@@ -110,12 +93,15 @@ theorem phaseCase_shape3 (c : Cfg) (s : St) :
     · rw [h2]; simp [sendPass, emit, liftF, runSend, (sendLoop_cursor _ _ _).2]
     · rw [h3]; simp [sendPass, emit, liftF]
   · rw [pc13 c s h]; left; split
-    · apply Plain.via
-      unfold respHeaders; split
-      · exact same
-      · split
-        · exact Plain.emit1 _ rfl rfl rfl rfl rfl
-        · exact Plain.emit1 _ rfl rfl rfl rfl rfl
+    · split
+      · obtain ⟨h1, _, h3, _, _, h6, _⟩ := afterPEd_true_frame c s
+        exact Plain.same h1 h3 h6
+      · apply Plain.via
+        unfold respHeaders; split
+        · exact same
+        · split
+          · exact Plain.emit1 _ rfl rfl rfl rfl rfl
+          · exact Plain.emit1 _ rfl rfl rfl rfl rfl
     · exact stay _
   · rw [pc14 c s h]; left; split
     · split
@@ -350,31 +336,8 @@ def Clean (s r : St) : Prop :=
   (∃ evs, r.trace = s.trace ++ evs ∧ ∀ e ∈ evs, isUnm e = false) ∧ r.blocked = s.blocked
 
 theorem afterPE_blocked (c : Cfg) (g : St) : (afterPE c g).trace = g.trace ∧ (afterPE c g).blocked = g.blocked := by
-  have hret : ∀ (x : St) (p : Nat), (ret x p).blocked = x.blocked := by
-    intro x p; unfold ret; split <;> (try split) <;> rfl
-  by_cases hc : g.cleaned = true
-  · rw [afterPE_cleaned c g hc]; exact ⟨ret_trace _ _, hret _ _⟩
-  · have hc : g.cleaned = false := by simpa using hc
-    by_cases hr : g.upstreamReset = true
-    · rw [afterPE_reset c g hc hr]
-      split
-      · exact ⟨ret_trace _ _, hret _ _⟩
-      · split <;> exact ⟨by rw [ret_trace]; rfl, by rw [hret]; rfl⟩
-    · have hr : g.upstreamReset = false := by simpa using hr
-      by_cases hd : g.direct = true
-      · rw [afterPE_direct c g hc hr hd]
-        split
-        · exact ⟨by rw [ret_trace]; rfl, by rw [hret]; rfl⟩
-        · split
-          · exact ⟨by rw [ret_trace]; rfl, by rw [hret]; rfl⟩
-          · exact ⟨rfl, rfl⟩
-      · have hd : g.direct = false := by simpa using hd
-        rw [afterPE_plain c g hc hr hd]
-        split
-        · exact ⟨by rw [ret_trace], by rw [hret]⟩
-        · split
-          · exact ⟨ret_trace _ _, hret _ _⟩
-          · exact ⟨rfl, rfl⟩
+  obtain ⟨h1, _, _, _, _, _, h7⟩ := afterPE_frame c g
+  exact ⟨h1, h7⟩
 
 theorem Clean.via (c : Cfg) {s g : St} (h : Clean s g) : Clean s (afterPE c g) := by
   obtain ⟨h1, h2⟩ := afterPE_blocked c g
@@ -444,12 +407,15 @@ theorem phaseCase_clean (c : Cfg) (s : St) (hd : PhaseData c s.view s.phase) : C
     exact Clean.via c (Clean.emit1 (.spass s.scursor (runSend c.send s.toFState).2) (by simp [sendPass, emit, liftF]) rfl
       (by simp [sendPass, emit, liftF]))
   · rw [pc13 c s h]; split
-    · apply Clean.via
-      unfold respHeaders; split
-      · exact same
-      · split
-        · exact Clean.emit1 _ rfl rfl rfl
-        · exact Clean.emit1 _ rfl rfl rfl
+    · split
+      · obtain ⟨h1, _, _, _, _, _, h7⟩ := afterPEd_true_frame c s
+        exact Clean.same h1 h7
+      · apply Clean.via
+        unfold respHeaders; split
+        · exact same
+        · split
+          · exact Clean.emit1 _ rfl rfl rfl
+          · exact Clean.emit1 _ rfl rfl rfl
     · exact stay _
   · rw [pc14 c s h]; split
     · split
@@ -484,7 +450,7 @@ theorem step_Uinv (c : Cfg) (s : St) (hg : Ginv c s) (hu : Uinv s) : Uinv (step 
     have hnh : s.halted = false := by simpa using hnh
     split
     · exact ⟨by rw [ret_trace]; exact hu.nounm, by
-        have : (ret s End).blocked = s.blocked := by unfold ret; split <;> (try split) <;> rfl
+        have : (ret s End).blocked = s.blocked := ret_blocked s End
         rw [this]; exact hu.noblock⟩
     · obtain ⟨hd, _⟩ := hg.live hnh
       obtain ⟨⟨evs, ht, hev⟩, hb⟩ := phaseCase_clean c { s with inner := s.inner + 1 } hd
